@@ -1021,7 +1021,7 @@ func (l Linter) GetConfig() (*config.Config, error) {
 		return &config.Config{}, fmt.Errorf("failed to get regal bundle: %w", err)
 	}
 
-	mergedConf, err := config.LoadConfigWithDefaultsFromBundle(regalBundle, l.userConfig)
+	mergedConf, err := config.LoadConfigWithDefaultsFromBundle(regalBundle, l.userConfigWithCustomRules())
 	if err != nil {
 		return &config.Config{}, fmt.Errorf("failed to read provided config: %w", err)
 	}
@@ -1039,6 +1039,45 @@ func (l Linter) GetConfig() (*config.Config, error) {
 	l.combinedCfg = &mergedConf
 
 	return l.combinedCfg, nil
+}
+
+// userConfigWithCustomRules returns the user config with an entry added for each custom rule
+// loaded that isn't already found there. This ensures that the level of a custom rule is determined
+// the same way as for built-in rules, i.e. that category and global default levels apply to them too.
+func (l Linter) userConfigWithCustomRules() *config.Config {
+	if l.userConfig == nil || len(l.customRuleModules) == 0 {
+		return l.userConfig
+	}
+
+	conf := *l.userConfig
+	conf.Rules = make(map[string]config.Category, len(l.userConfig.Rules))
+
+	for categoryName, category := range l.userConfig.Rules {
+		conf.Rules[categoryName] = make(config.Category, len(category))
+
+		for ruleName, rule := range category {
+			conf.Rules[categoryName][ruleName] = rule
+		}
+	}
+
+	for _, module := range l.customRuleModules {
+		parts := util.UnquotedPath(module.Package.Path)
+		// 1      2     3     4   5
+		// custom.regal.rules.cat.rule
+		if len(parts) != 5 {
+			continue
+		}
+
+		if _, ok := conf.Rules[parts[3]]; !ok {
+			conf.Rules[parts[3]] = make(config.Category)
+		}
+
+		if _, ok := conf.Rules[parts[3]][parts[4]]; !ok {
+			conf.Rules[parts[3]][parts[4]] = config.Rule{}
+		}
+	}
+
+	return &conf
 }
 
 func (l Linter) getBundleByName(name string) (*bundle.Bundle, error) {
